@@ -169,17 +169,32 @@ def run(tier):
     ex.vec_input_slots = width
     ex.vec_new_slots = width + 1
     body = ex.fresh_value('alpha::common::FunctionBody', 'body', depth=depth, expand=lambda b: b in c06.EXPAND)
-    hdrs = [n for n in dump.function_names() if re.search(r'label_references\.rs:\d+:\d+: \d+:\d+>::analyze$', n)
-            and dump.get(n).params[0][1].endswith('FunctionBody')]
-    if len(hdrs) != 1:
-        raise Inconclusive('label_references::Analyzable for FunctionBody not found in the MIR dump')
+    # entry point: label_references::analyze(program) - the pass builds its own Analyzer
+    if 'label_references::analyze' not in dump.fn_index:
+        raise Inconclusive('label_references::analyze not found in the MIR dump')
+    ddef = defs.find_enum('alpha::common::Declaration')
+    rdef = defs.find_enum('Result')
+    ffields = []
+    from mirsym import Opaque
+    for fname, ft in ddef.variant_by_name('Function')[2]:
+        if fname == 'body':
+            ffields.append(EnumV(rdef, bv(0, 64), {'Ok': (body,)}))
+        else:
+            ffields.append(Opaque(fname))
+    decl = EnumV(ddef, bv(ddef.variant_by_name('Function')[1], 64), {'Function': tuple(ffields)})
+    program = Model('vec', items=Agg([decl, None], 'vecitems'), len=bv(1, 64), cap=bv(1, 64))
+    ex.vec_new_slots = max(width + 1, depth + 2)
     st = State()
-    st.mem[(0, 'analyzer')] = Agg([mirmodels.new_vec(depth + 2, bv(0, 64), bv(0, 64)), bv(1, 32)], 'Analyzer')
     try:
-        g, out = ex.call_function(dump.get(hdrs[0]), [body, PlaceRef((0, 'analyzer'))], z3.BoolVal(True), st)
+        g, outp = ex.call_function(dump.get('label_references::analyze'), [program], z3.BoolVal(True), st)
     except Unsupported as e:
         raise Inconclusive('cannot encode the label scoping pass: %s' % e)
     exec_s = time.time() - t0 - dump_s
+    try:
+        od = outp.f['items'].fields[0]
+        out = od.variants['Function'][[f for f, _ in ddef.variant_by_name('Function')[2]].index('body')].variants['Ok'][0]
+    except (KeyError, AttributeError, IndexError, TypeError):
+        raise Inconclusive('the label pass did not return the function it was given')
     sdef = defs.find_struct('alpha::common::FunctionBody')
     si = [f for f, _ in sdef.fields].index('statements')
     vin, vout = body.fields[si], out.fields[si]
@@ -193,7 +208,6 @@ def run(tier):
         if x is None or i >= len(items_out) or items_out[i] is None:
             continue
         ok.append(z3.Implies(z3.ULT(bv(i, 64), n_in), agree(T, x, items_out[i], [(list(items_in), n_in, i)])))
-    stack_after = st.mem[(0, 'analyzer')].fields[0].f['len']
     queries, pending = [], []
     solver_s = 0.0
 
@@ -221,15 +235,24 @@ def run(tier):
             enc = strip_names(body_wire(m, items_out, n_out))
             got = native([line])[0]
             q['counterexample'] = {'body': line, 'native': got, 'encoding': enc}
-            if got != enc and qname != 'label-pass-total':
-                raise Inconclusive('counterexample [%s] does not reproduce natively: native [%s], encoding [%s]' % (line, got, enc))
+            if qname == 'model-bounds':
+                q['confirmed'] = False
+                unconfirmed.append('the bounded Vec/loop model is exceeded on [%s]' % line)
+                return
+            confirmed = (got == 'PANIC') if qname == 'label-pass-total' else (got == enc)
+            q['confirmed'] = confirmed
+            if not confirmed:
+                unconfirmed.append('counterexample [%s] of %s does not reproduce natively: native [%s], encoding [%s]' % (line, qname, got, enc))
+                return
             pending.append((qname, text, line, got))
 
-    obs = [og for _, og, _ in ex.obligations]
-    ask('label-pass-total', zor(znot(g), *obs), 'the label pass returns for every statement tree within the bound, without panic')
-    ask('label-visibility', zand(g, znot(zand(*ok))),
+    unconfirmed = []
+    panics = [og for k_, og, _ in ex.obligations if k_ not in ('bound', 'unwind')]
+    in_model = znot(zor(*[og for k_, og, _ in ex.obligations if k_ in ('bound', 'unwind')]))
+    ask('label-pass-total', zand(in_model, zor(znot(g), *panics)), 'the label pass returns for every statement tree within the bound, without panic')
+    ask('label-visibility', zand(g, in_model, znot(zand(*ok))),
         'goto resolves iff a label of that name is later in the same or an enclosing block (E400); a label clashing with such a later label is E420; nothing else changes')
-    ask('scope-stack-balanced', zand(g, stack_after != bv(0, 64)), 'every scope pushed for a body or block is popped again')
+    ask('model-bounds', znot(in_model), 'the slots of the Vec models and the loop unrollings suffice for every statement tree within the bound')
 
     # native validation of the encoding on random trees
     rng = random.Random(seed() * 29 + 5)
@@ -273,6 +296,10 @@ def run(tier):
     if bad:
         raise Inconclusive('encoding disagrees with the native label pass: %r' % bad[:3])
 
+    if unconfirmed and not pending:
+        # a solver assignment that the real pass does not reproduce says the encoding (or a model bound) is wrong for
+        # this tree: nothing is reported about the code
+        raise Inconclusive('; '.join(unconfirmed[:3]))
     known = known_keys(PROP)
     out_v = []
     for qname, text, line, got_ in pending:
